@@ -28,6 +28,7 @@ import OFV.Proofs.C08ScatterC03
 import OFV.Proofs.C08Dch
 import OFV.Proofs.C08Qh
 import OFV.Proofs.C08DchIg
+import OFV.Proofs.C08QhIg
 import OFV.Proofs.C08Doci
 import OFV.Spec.Expr
 
@@ -416,6 +417,35 @@ example : qhExact Generated.eqTolerance
         [([(1, 1), (0, 1)], 1), ([(1, 0), (0, 0)], -1), ([(0, 1), (0, 0)], 1)] ⟨1/2, 0⟩ none false with
       | .ok P => P.d.length
       | .error _ => 0) = 4 := by
+  decide +kernel
+
+/-- **`get_quadratic_hamiltonian_sound_general`**: for EITHER value of `ignore_incompatible_terms`,
+whenever the call succeeds in the exact regime of the run, the QuadraticHamiltonian denotes exactly
+the quadratic part of `normal_ordered(A)` — the terms `()`, `a†_p a_q`, `a†_p a†_q`, `a_p a_q` below the
+register size `n` the code resolves (`qh_forms_spec`: `admKeysQ n` lists exactly these words).  With
+`ignore_incompatible_terms=False` a successful call has no other terms
+(`get_quadratic_hamiltonian_sound`); with `True` the other terms are dropped and nothing else changes. -/
+theorem get_quadratic_hamiltonian_sound_general (D : Nat) (hD : 0 < D) (tol : Rat) (h0 : 0 ≤ tol)
+    (h1 : tol * D ≤ 1) (A : Model.Op) (mu : GQ) (n? : Option Nat) (ig : Bool) (P : PT)
+    (hv : ∀ e ∈ A, ∀ f ∈ e.1, f.2 < 2) (la : ∀ e ∈ A, Proofs.C03.Lat D e.2)
+    (h : getQuadraticHamiltonian tol A mu n? ig = .ok P) (hex : qhExact tol A = true) (t s : Nat) :
+    ∃ n, resolveN A n? = .ok n ∧ melF (denotePT P.d) t s
+      = melF ((normalOrdered tol A).filter fun e => decide (e.1 ∈ admKeysQ n)) t s :=
+  getQH_sound_ig D hD tol h0 h1 A mu n? ig P hv la h hex t s
+
+/-- the words kept by `get_quadratic_hamiltonian` -/
+theorem qh_forms_spec (n : Nat) (t : Model.Term) : t ∈ admKeysQ n ↔ AdmQ n t := mem_admKeysQ_iff n t
+
+/-- non-vacuity: with `ignore_incompatible_terms=True` a two-body term is dropped and the call
+succeeds; with `False` it fails -/
+example : (match getQuadraticHamiltonian Generated.eqTolerance
+        [([(0, 1), (0, 0)], 1), ([(1, 1), (0, 1), (1, 0), (0, 0)], 2)] 0 none true with
+      | .ok P => P.d.length
+      | .error _ => 0) = 2 ∧
+    (match getQuadraticHamiltonian Generated.eqTolerance
+        [([(0, 1), (0, 0)], 1), ([(1, 1), (0, 1), (1, 0), (0, 0)], 2)] 0 none false with
+      | .ok _ => true
+      | .error _ => false) = false := by
   decide +kernel
 
 /-! ### DOCIHamiltonian -/
